@@ -680,8 +680,9 @@ class BaseDiscretizer(BaseEstimator, TransformerMixin):
         for feature in requested_features:
             # adding each value/label
             for value, label in self.labels_per_values[feature].items():
-                # checking that nan where dropped
-                if not (not self.dropna and value == self.str_nan):
+                # checking that nan where dropped (update_discretizer can group them afterwards)
+                feature_dropna = self.features_dropna.get(feature, self.dropna)
+                if not (not feature_dropna and value == self.str_nan):
                     # initiating feature summary (default value/label)
                     feature_summary = {
                         "feature": feature,
